@@ -22,12 +22,20 @@ MUTATING = re.compile(r'\b(remove_file|remove_dir|remove_dir_all|create_dir|crea
                       r'File::create|OpenOptions|File::options|set_len|process::Command|set_current_dir|env::set_var|create_new|truncate)\b')
 
 
-def effect_log(chk, stale_cwd, stale_in_dir, same_dir, has_findings):
+TREES = {
+    'base': [('file', 'A.sol', 'a'), ('dir', 'sub', [('file', 'B.sol', 'b')]), ('file', 'notes.txt', 'n')],
+    'tests and empties': [('file', 'A.sol', 'a'), ('file', 'A.t.sol', 'at'), ('dir', 'empty', []), ('dir', 'sub', [('dir', 'deep', [('file', 'B.sol', 'b')]), ('file', 'x.T.SOL', 'xt')])],
+    'report-like names': [('file', 'A.sol', 'a'), ('dir', 'sub', [('file', 'solstat_report.md', 'stale2'), ('file', 'B.sol', 'b')]), ('file', 'solstat_report.md.sol', 'rs')],
+    'small': [('file', 'A.sol', 'a'), ('file', 'B.sol', 'b')],
+}
+
+
+def effect_log(chk, stale_cwd, stale_in_dir, same_dir, has_findings, tree_name='base', symbolic_listing=False):
     e = chk.engine('bin')
     f = e.func('main')
     w = World()
     root = '.' if same_dir else 'target'
-    entries = [('file', 'A.sol', 'a'), ('dir', 'sub', [('file', 'B.sol', 'b')]), ('file', 'notes.txt', 'n')]
+    entries = list(TREES[tree_name])
     if stale_in_dir or (same_dir and stale_cwd):
         entries.append(('file', 'solstat_report.md', 'stale'))
     tree = dl.Tree(entries)
@@ -40,7 +48,7 @@ def effect_log(chk, stale_cwd, stale_in_dir, same_dir, has_findings):
     if stale_cwd and not same_dir:
         w.files['solstat_report.md'] = {'name': Str('solstat_report.md'), 'kind': 'file', 'path': 'solstat_report.md', 'contents': Str(z3.String('stale_report'))}
     e.flags['world'] = w
-    e.flags['symbolic_listing'] = False      # listing orders are C03's subject; they would multiply over the three passes
+    e.flags['symbolic_listing'] = symbolic_listing   # listing orders are C03's subject; they multiply over the three passes (small trees only)
     args = Adt('Args', None, (some(Str(root)), NONE))
     e.stubs['<opts::Args as Parser>::parse'] = lambda en, a, fr, c: args
     by_contents = {id(v['contents']): v for v in w.files.values() if v['contents'] is not None}
@@ -52,7 +60,7 @@ def effect_log(chk, stale_cwd, stale_in_dir, same_dir, has_findings):
                 raise Unsupported('per-file analysis on a text that is not a file of the tree')
             pat = en.force(a[2]).variant
             en.extra.setdefault('analysed', []).append((rec['path'], pat))
-            if has_findings and rec.get('tag') in ('a', 'b') and pat in ('SolidityMath', 'FloatingPragma', 'ConstructorOrder'):
+            if has_findings and rec.get('tag') in ('a', 'b', 'rs') and pat in ('SolidityMath', 'FloatingPragma', 'ConstructorOrder'):
                 return SetV((Int(z3.BitVec('line_%s_%s' % (rec['tag'], pat), 32), 'i32'),), 'btree')
             return SetV((), 'btree')
         return stub
@@ -62,14 +70,39 @@ def effect_log(chk, stale_cwd, stale_in_dir, same_dir, has_findings):
     return paths, w, root
 
 
-def symbolic_part(chk):
+def real_rel(w, key, root):
+    """path of a world key relative to the working directory, as the program spells it"""
+    parts = key.split('/')
+    k, out = root, [root]
+    for comp in parts[1:] if root != '.' else parts[1:]:
+        ent = [x for x in w.dirs[k] if x['path'] == k + '/' + comp][0]
+        out.append(ent['name'].v)
+        k = k + '/' + comp
+    return os.path.normpath('/'.join(out))
+
+
+def configurations(chk):
     for stale_cwd, stale_in_dir, same_dir, has_findings in itertools.product((False, True), (False, True), (False, True), (True, False)):
-        label = 'stale report in cwd=%s, in the analysed directory=%s, cwd is the analysed directory=%s, findings=%s' % (stale_cwd, stale_in_dir, same_dir, has_findings)
+        yield stale_cwd, stale_in_dir, same_dir, has_findings, 'base', False
+    if chk.quick:
+        return
+    for tree_name in ('tests and empties', 'report-like names'):
+        for stale_cwd, stale_in_dir, same_dir in itertools.product((False, True), (False, True), (False, True)):
+            yield stale_cwd, stale_in_dir, same_dir, True, tree_name, False
+    for stale_cwd, same_dir in itertools.product((False, True), (False, True)):
+        yield stale_cwd, False, same_dir, True, 'small', True          # every listing order of every pass: 2^3 paths
+
+
+def symbolic_part(chk):
+    for stale_cwd, stale_in_dir, same_dir, has_findings, tree_name, sym_listing in configurations(chk):
+        label = 'tree %r, stale report in cwd=%s, in the analysed directory=%s, cwd is the analysed directory=%s, findings=%s%s' % (
+            tree_name, stale_cwd, stale_in_dir, same_dir, has_findings, ', every listing order' if sym_listing else '')
         try:
-            paths, w, root = effect_log(chk, stale_cwd, stale_in_dir, same_dir, has_findings)
+            paths, w, root = effect_log(chk, stale_cwd, stale_in_dir, same_dir, has_findings, tree_name, sym_listing)
         except Unsupported as u:
             chk.undecide('main(): %s' % u); continue
         texts = set()
+        eligible = {k for k, v in w.files.items() if v['name'].v.endswith('.sol') and '.t.sol' not in v['name'].v.lower()}
         for r in paths:
             if r.outcome == 'unsupported':
                 chk.undecide('main() [%s]: %s' % (label, r.value)); continue
@@ -80,8 +113,6 @@ def symbolic_part(chk):
             problems = []
             if len(writes) != 1 or not (writes[0][0].concrete and writes[0][0].v == 'solstat_report.md'):
                 problems.append('writes %r instead of exactly one write to solstat_report.md' % [x[0] for x in writes])
-            bad_reads = [p for p in reads if not p.endswith(('/e0', '/e1/e0')) ]
-            eligible = {k for k, v in w.files.items() if v['name'].v.endswith('.sol') and '.t.sol' not in v['name'].v.lower()}
             if set(reads) != eligible or len(reads) != 3 * len(eligible):
                 problems.append('reads %r, expected each of %r once per category' % (sorted(set(reads)), sorted(eligible)))
             if problems:
@@ -90,10 +121,15 @@ def symbolic_part(chk):
                 chk.ok()
             if writes:
                 texts.add(rl.flat(writes[0][1]))
-        chk.extra_lists.setdefault('report_texts', []).append((has_findings, sorted(texts)))
-        chk.sample({'main() effect log': label, 'paths (listing orders)': len(paths)}) if stale_cwd and same_dir else None
+        if len(texts) > 1:
+            chk.violation('main:listing-order-influences-result', 'the report text depends on the order in which the directories are listed (%s)' % label, {})
+        chk.extra_lists.setdefault('report_texts', []).append(((has_findings, tree_name), sorted(texts)))
+        good = [r for r in paths if r.outcome == 'return']
+        if good and not sym_listing:
+            syscall_validation(chk, w, root, good[0], stale_cwd, stale_in_dir, same_dir, has_findings, tree_name, label)
+        chk.sample({'main() effect log': label, 'paths': len(paths)}) if (stale_cwd and same_dir) or sym_listing else None
     # the stale report has no influence: with the same findings all configurations write the same text
-    for hf in (True, False):
+    for hf in sorted({h for h, _ in chk.extra_lists.get('report_texts', [])}):
         alltexts = set()
         for h, ts in chk.extra_lists.get('report_texts', []):
             if h == hf:
@@ -103,6 +139,129 @@ def symbolic_part(chk):
         else:
             chk.ok()
     chk.extra_lists.pop('report_texts', None)
+
+
+OPEN_RE = re.compile(r'^\d+\s+(openat|open|creat)\((?:AT_FDCWD, )?"((?:[^"\\\\]|\\\\.)*)", ([A-Z_|0-9a-z]+)(?:, [0-7]+)?\)\s+= (-?\d+)')
+CALL_RE = re.compile(r'^\d+\s+([a-z_0-9]+)\((.*)$')
+MUTATING_SYSCALLS = {'unlink', 'unlinkat', 'rename', 'renameat', 'renameat2', 'mkdir', 'mkdirat', 'rmdir', 'truncate', 'ftruncate', 'chmod', 'fchmod', 'fchmodat',
+                     'chown', 'fchown', 'lchown', 'fchownat', 'link', 'linkat', 'symlink', 'symlinkat', 'utime', 'utimes', 'utimensat', 'futimesat', 'setxattr',
+                     'lsetxattr', 'fsetxattr', 'removexattr', 'mknod', 'mknodat', 'fallocate', 'copy_file_range', 'sendfile', 'chdir', 'fchdir', 'execve',
+                     'fork', 'vfork', 'clone', 'clone3', 'mount', 'creat'}
+TRACE = ('trace=%file,%process,write,pwrite64,writev,pwritev,pwritev2,ftruncate,fchmod,fchown,fallocate,copy_file_range,sendfile,fchdir,'
+         'fsetxattr,close')
+
+
+def strace_run(binary, argv, cwd, log):
+    """run the real binary under strace; -> (returncode, parsed events) or None if strace cannot be used here"""
+    import shutil
+    st = shutil.which('strace')
+    if not st:
+        return None
+    p = subprocess.run([st, '-f', '-qq', '-s', '0', '-e', TRACE, '-o', log, binary] + argv, cwd=cwd, stdout=subprocess.PIPE, stderr=subprocess.PIPE, text=True)
+    if not os.path.exists(log) or os.path.getsize(log) == 0:
+        return None
+    ev = {'dirs': [], 'reads': [], 'wopens': [], 'mutating': [], 'writes_fd': [], 'rc': p.returncode, 'stderr': p.stderr[-300:]}
+    fds = {}
+    started = False
+    for line in open(log, errors='replace'):
+        if not started:
+            started = 'execve(' in line           # the exec of solstat itself is the first event
+            continue
+        m = OPEN_RE.match(line)
+        if m:
+            call, path, flags, ret = m.group(1), m.group(2), set(m.group(3).split('|')), int(m.group(4))
+            if ret < 0:
+                continue
+            if flags & {'O_WRONLY', 'O_RDWR', 'O_CREAT', 'O_TRUNC', 'O_APPEND'} or call == 'creat':
+                ev['wopens'].append((path, sorted(flags)))
+                fds[ret] = path
+            elif 'O_DIRECTORY' in flags:
+                ev['dirs'].append(path)
+            else:
+                ev['reads'].append(path)
+            continue
+        m = CALL_RE.match(line)
+        if not m:
+            continue
+        call, rest = m.group(1), m.group(2)
+        if call in ('write', 'pwrite64', 'writev', 'pwritev', 'pwritev2'):
+            fd = int(rest.split(',')[0])
+            if fd not in (1, 2):
+                ev['writes_fd'].append(fds.get(fd, 'fd %d' % fd))
+        elif call == 'close':
+            pass
+        elif call in MUTATING_SYSCALLS:
+            if re.search(r'= -1 E', line) and call not in ('execve',):
+                continue
+            ev['mutating'].append(line.strip()[:160])
+    return ev
+
+
+def in_tree(path, *roots):
+    ap = os.path.normpath(path)
+    return not ap.startswith(('/', '..')) or any(ap.startswith(r) for r in roots)
+
+
+def syscall_validation(chk, w, root, r, stale_cwd, stale_in_dir, same_dir, has_findings, tree_name, label):
+    """translator validation of the fs contracts: the same configuration on a real file system, the real binary under strace;
+    the system-call log must be the engine's effect log, and the one write-open must truncate"""
+    base = os.path.join(chk.native.dir, 'sys%d' % chk.native.n)
+    chk.native.n += 1
+    cwd = os.path.join(base, 'cwd')
+    os.makedirs(cwd)
+    troot = cwd if same_dir else os.path.join(cwd, 'target')
+    os.makedirs(troot, exist_ok=True)
+    counter = [0]
+
+    def put(entries, d):
+        for ent in entries:
+            p = os.path.join(d, ent[1])
+            if ent[0] == 'dir':
+                os.makedirs(p, exist_ok=True); put(ent[2], p)
+            else:
+                counter[0] += 1
+                pats = ['solidity_math', 'floating_pragma', 'constructor_order'] if has_findings and ent[2] in ('a', 'b', 'rs') else []
+                text = dl.file_text(pats, counter[0]) if ent[1].lower().endswith('.sol') else 'stale or other text %d\n' % counter[0]
+                open(p, 'w').write(text)
+    entries = list(TREES[tree_name])
+    if stale_in_dir or (same_dir and stale_cwd):
+        entries.append(('file', 'solstat_report.md', 'stale'))
+    put(entries, troot)
+    if stale_cwd and not same_dir:
+        open(os.path.join(cwd, 'solstat_report.md'), 'w').write('STALE ' * 5000)
+    before = tree_digest(cwd, skip=('solstat_report.md',))
+    ev = strace_run(os.path.join(chk.world.build, 'solstat'), ['--path', '.' if same_dir else 'target'], cwd, os.path.join(base, 'strace.log'))
+    if ev is None:
+        chk.extra['strace'] = 'not usable in this environment: system-call comparison skipped'
+        return
+    chk.validated += 1
+    after = tree_digest(cwd, skip=('solstat_report.md',))
+    norm = lambda ps: sorted(os.path.normpath(p) for p in ps)
+    want_reads = norm(real_rel(w, k, root) for k in r.extra.get('reads', []))
+    want_dirs = norm(real_rel(w, k, root) for k in r.extra.get('listed', []))
+    got_reads = norm(p for p in ev['reads'] if not os.path.isabs(p))
+    got_dirs = norm(p for p in ev['dirs'] if not os.path.isabs(p))
+    if ev['rc'] != 0:
+        chk.broken('C18 %s: engine predicts a normal run, the real binary exits with %d: %s' % (label, ev['rc'], ev['stderr']))
+    if want_reads != got_reads or want_dirs != got_dirs:
+        chk.broken('C18 %s: the engine\'s effect log differs from the system calls of the real binary\nengine reads %r\nreal reads   %r\nengine lists %r\nreal lists   %r' % (
+            label, want_reads, got_reads, want_dirs, got_dirs))
+    problems = []
+    wopens = [(p, fl) for p, fl in ev['wopens'] if not p.startswith(('/dev/', '/proc/'))]
+    if [p for p, _ in wopens] != ['solstat_report.md']:
+        problems.append('files opened for writing: %r' % (wopens,))
+    elif 'O_TRUNC' not in wopens[0][1] or 'O_APPEND' in wopens[0][1]:
+        problems.append('solstat_report.md is opened with %s: a previous report is not replaced' % '|'.join(wopens[0][1]))
+    if set(ev['writes_fd']) - {'solstat_report.md'}:
+        problems.append('data written to %r' % sorted(set(ev['writes_fd']) - {'solstat_report.md'}))
+    if ev['mutating']:
+        problems.append('mutating system calls: %r' % ev['mutating'][:4])
+    if before != after:
+        problems.append('files changed: %r' % sorted(set(before.items()) ^ set(after.items()))[:4])
+    if problems:
+        # the failing run is concrete and native: a violation in its own right, whatever the engine said
+        chk.violation('run:syscalls', 'solstat run (%s): %s' % (label, '; '.join(problems)), {'job': 'solstat', 'strace': ev})
+    chk.extra['strace'] = 'every symbolic configuration replayed under strace: opens, directory listings, write-opens (O_TRUNC, no O_APPEND), mutating system calls'
 
 
 def scan(chk):
